@@ -121,6 +121,14 @@ Section Later.
     eapply same6_poisoned; [apply same6_set_flow|exact HP].
   Qed.
 
+  (* a poll racing a second close of an already failed connection *)
+  Lemma p_race : forall m idx e2 t a, Poisoned e m -> Poisoned e (fst (race m idx e2 t a)).
+  Proof.
+    intros m idx e2 t a HP. unfold race. destruct (race_kind t a) as [k|]; [|exact HP].
+    pose proof (p_start_task m idx k HP) as Q. destruct (start_task m idx k) as [m1 o]. cbn [fst] in *.
+    rewrite (conn_error_again e) by exact Q. exact Q.
+  Qed.
+
   Lemma p_cm_op : forall m idx tag a, Poisoned e m -> Poisoned e (fst (cm_op m idx tag a)).
   Proof.
     intros m idx tag a HP. unfold cm_op.
@@ -147,6 +155,7 @@ Section Later.
       try (rewrite (poisoned_dgram_in e) by exact HP; exact HP);
       try (rewrite (conn_error_again e) by exact HP; exact HP);
       try (apply p_flow_err; exact HP);
+      try (apply p_race; exact HP);
       try (rewrite p_credit; exact HP).
   Qed.
 
